@@ -470,6 +470,9 @@ class Interp:
             return self.lookup(n.id, fr)
         if isinstance(n, ast.Attribute):
             base = self.ex(n.value, fr)
+            if n.attr in MUTATING_METHODS and isinstance(n.value, ast.Name) and n.value.id in fr.env and base[0] in ('list', 'dict', 'comp', 'cat', 'accum', 'upd'):
+                # `push = out.append` kept as a value: later calls of it change `out` behind the analysis' back
+                raise Unknown('bound method %s.%s of a local container taken as a value' % (n.value.id, n.attr))
             if base[0] == 'tuple' and base in getattr(self, 'ntuple_fields', {}) and n.attr in self.ntuple_fields[base]:
                 return base[1][self.ntuple_fields[base].index(n.attr)]          # field of a namedtuple record
             t = self.load(A(base, n.attr))
